@@ -59,7 +59,7 @@ Proof.
   unfold read_tg. unfold tgLenBytes, checkSumBytes, tgIDBytes. change (Z.to_nat 8) with 8%nat. change (Z.to_nat 16) with 16%nat.
   destruct (wal_read bs p 8) as [| |d] eqn:Er; cbn [ev_next]; try discriminate.
   apply wal_read_ok in Er as [Hr _].
-  destruct (negb _); cbn [ev_next]. { intros E; inversion E; subst. lia. }
+  destruct (_ || _); cbn [ev_next]. { intros E; inversion E; subst. lia. }
   destruct (Z.ltb_spec (wrap I64 (le_val d)) 0) as [|Hpos]; cbn [ev_next]; [discriminate|].
   destruct (file_read_full bs (p + 8) (wrap I64 (le_val d))) as [body|] eqn:Eb; cbn [ev_next]; [|discriminate].
   apply file_read_full_some in Eb as (Hl & Hb & _); [|exact Hpos].
@@ -180,7 +180,7 @@ Lemma read_tg_intact bs p p' id body :
 Proof.
   unfold WalScan.read_tg. unfold tgLenBytes, checkSumBytes, tgIDBytes. change (Z.to_nat 8) with 8%nat. change (Z.to_nat 16) with 16%nat.
   destruct (wal_read bs (p + 1) 8) as [| |d] eqn:Er; try discriminate.
-  destruct (negb _); [discriminate|].
+  destruct (_ || _); [discriminate|].
   destruct (Z.ltb_spec (wrap I64 (le_val d)) 0) as [|Hpos]; [discriminate|].
   destruct (file_read_full bs (p + 1 + 8) (wrap I64 (le_val d))) as [b|] eqn:Eb; [|discriminate].
   apply file_read_full_some in Eb as (Hl & Hb & Hbd); [|exact Hpos].
@@ -276,8 +276,9 @@ Proof.
 Qed.
 
 (** ParseTGData returns the id stored in the first eight bytes, which is the key readTGData computed *)
-Lemma parse_id_is_key body tgid wts : ParseTGData body root = Ok (tgid, wts) -> tg_id_of body = tgid.
+Lemma parse_id_is_key body tgid wts : parseTGData body root = Ok (tgid, wts) -> tg_id_of body = tgid.
 Proof.
+  intros H. apply parseTGData_ok in H. revert H.
   unfold ParseTGData, tgIDLenBytes, wtCountLenBytes. intros H.
   apply bind_ok in H as (b & Hs & H). apply bind_ok in H as (id & Hid & H).
   apply bind_ok in H as (b2 & Hs2 & H). apply bind_ok in H as (cnt & Hc & H).
@@ -298,13 +299,14 @@ Qed.
 
 Lemma apply_sched_applied : forall s tgid n,
   In (tgid, n) (r_applied (apply_sched s)) ->
-  exists k body wts, In (k, body) s /\ ParseTGData body root = Ok (tgid, wts) /\ n = length wts.
+  exists k body wts, In (k, body) s /\ parseTGData body root = Ok (tgid, wts) /\ n = length wts.
 Proof.
   induction s as [|[k body] r IH]; intros tgid n H; cbn [WalScan.apply_sched] in H; [contradiction|].
-  destruct (ParseTGData body root) as [[id wts]| |] eqn:Ep; cbn [r_applied] in H; try contradiction.
-  destruct (_ || _); cbn [r_applied] in H; [|contradiction].
-  destruct H as [H|H].
-  - inversion H; subst. exists k, body, wts. split; [left; reflexivity|]. split; [exact Ep|reflexivity].
+  destruct (parseTGData body root) as [[id wts]| |] eqn:Ep; cbn [r_applied] in H; try contradiction.
+  - destruct (_ || _); cbn [r_applied] in H; [|contradiction].
+    destruct H as [H|H].
+    + inversion H; subst. exists k, body, wts. split; [left; reflexivity|]. split; [exact Ep|reflexivity].
+    + apply IH in H as (k' & b' & w' & Hin & Hp & Hn). exists k', b', w'. split; [right; exact Hin|]. split; assumption.
   - apply IH in H as (k' & b' & w' & Hin & Hp & Hn). exists k', b', w'. split; [right; exact Hin|]. split; assumption.
 Qed.
 
@@ -323,53 +325,72 @@ Proof.
   exists d. repeat split; try assumption. apply parse_id_is_key in Hp. congruence.
 Qed.
 
-(* ------------------------------------------------------------------ (i): no panic under the guards *)
+(* ------------------------------------------------------------------ (i): no panic, for every byte string *)
 
-Lemma apply_sched_no_panic : forall s,
-  (forall k b, In (k, b) s -> ParseTGData b root <> Panic) -> r_code (apply_sched s) <> 2%nat.
+(** the two panic outcomes kept in [read_tg] (make with a negative length, [:7] of a shorter slice) lie
+    behind the test [tgLen < tgIDBytes] and are unreachable *)
+Lemma read_tg_no_panic bs p c : read_tg bs p <> EvPanic c.
 Proof.
-  induction s as [|[k body] r IH]; intros H; cbn [WalScan.apply_sched]; [cbn; discriminate|].
-  destruct (ParseTGData body root) as [[id wts]| |] eqn:Ep.
-  - destruct (_ || _); cbn [r_code]; [|discriminate]. apply IH. intros k' b' Hin. eapply H. right. exact Hin.
-  - exfalso. eapply ParseTGData_not_rejected. exact Ep.
-  - exfalso. eapply (H k body); [left; reflexivity|exact Ep].
+  unfold WalScan.read_tg. unfold tgLenBytes, checkSumBytes, tgIDBytes. change (Z.to_nat 8) with 8%nat. change (Z.to_nat 16) with 16%nat.
+  destruct (wal_read bs p 8) as [| |d]; try discriminate.
+  destruct (Z.ltb_spec (wrap I64 (le_val d)) 8) as [Hlt|Hge].
+  - rewrite orb_true_r. discriminate.
+  - rewrite orb_false_r. destruct (negb _); [discriminate|].
+    destruct (Z.ltb_spec (wrap I64 (le_val d)) 0); [lia|].
+    destruct (file_read_full bs (p + 8) (wrap I64 (le_val d))) as [body|]; [|discriminate].
+    destruct (Z.ltb_spec (wrap I64 (le_val d)) (8 - 1)); [lia|].
+    destruct (file_read_full bs (p + 8 + length body) 16) as [ck|]; [|discriminate].
+    destruct (bytes_eqb _ _); discriminate.
 Qed.
 
-(** C06 (i), guarded: no frame of one of the three panic kinds, and every intact record of the file
-    parses ==> startup replay neither panics nor runs out of fuel *)
+Lemma next_msg_no_panic bs pos c : next_msg bs pos <> EvPanic c.
+Proof.
+  unfold WalScan.next_msg.
+  destruct (wal_read bs pos 1) as [| |d]; try discriminate.
+  destruct (_ =? MID_TGDATA). { apply read_tg_no_panic. }
+  destruct (_ =? MID_TXNINFO).
+  { unfold read_txn. destruct (wal_read bs (pos + 1) 10); try discriminate.
+    destruct (negb _); [discriminate|]. destruct (negb _); discriminate. }
+  destruct (_ =? MID_STATUS).
+  { unfold read_status. destruct (wal_read bs (pos + 1) 10); discriminate. }
+  discriminate.
+Qed.
+
+Lemma events_no_panic : forall fuel bs pos, forallb (fun e => negb (is_panic_ev e)) (events fuel bs pos) = true.
+Proof.
+  induction fuel as [|f IH]; intros bs pos; cbn [events forallb]; [reflexivity|].
+  apply andb_true_intro. split.
+  - destruct (next_msg bs pos) eqn:E; try reflexivity. exfalso. eapply next_msg_no_panic. exact E.
+  - destruct (ev_next (next_msg bs pos)); [apply IH|reflexivity].
+Qed.
+
+Lemma frames_no_panic bs : no_panic_frames bs = true.
+Proof. apply events_no_panic. Qed.
+
+Lemma apply_sched_no_panic : forall s, r_code (apply_sched s) <> 2%nat /\ r_code (apply_sched s) <> 4%nat.
+Proof.
+  induction s as [|[k body] r IH]; cbn [WalScan.apply_sched]; [cbn; split; discriminate|].
+  destruct (parseTGData body root) as [[id wts]| |] eqn:Ep.
+  - destruct (_ || _); cbn [r_code]; [exact IH|split; discriminate].
+  - exact IH.
+  - exfalso. eapply parseTGData_no_panic. exact Ep.
+Qed.
+
+(** C06 (i), UNGUARDED after the fix: whatever the bytes, startup replay neither panics nor hangs *)
 Theorem replay_no_panic : forall bs,
-  no_panic_frames bs = true ->
-  (forall p id body, intact_at bs p id body -> ParseTGData body root <> Panic) ->
   r_code (replay_bytes bs) <> 2%nat /\ r_code (replay_bytes bs) <> 4%nat.
 Proof.
-  intros bs Hf Hp. unfold WalScan.replay_bytes.
+  intros bs. unfold WalScan.replay_bytes.
   destruct (scan (S (length bs)) bs 0 [] []) as [m| |c|] eqn:Es.
-  - split.
-    + apply apply_sched_no_panic. intros k b Hin. apply (proj1 (schedule_In _ _ _)) in Hin.
-      rewrite scan_run_evs in Es.
-      eapply run_evs_map_from in Es; [| intros e He; exact He | intros ? ? []].
-      apply Es in Hin as (p' & Hev). apply events_intact in Hev as (p & Hi).
-      assert (Hk : k = tg_id_of b) by (destruct Hi as (d & _ & _ & _ & _ & _ & _ & E); exact E).
-      eapply Hp. exact Hi.
-    + (* code 4 is produced only by SFuel *)
-      clear. generalize (schedule m). induction l as [|[k body] r IH]; cbn [WalScan.apply_sched]; [cbn; discriminate|].
-      destruct (ParseTGData body root) as [[id wts]| |]; cbn [r_code]; try discriminate.
-      destruct (_ || _); cbn [r_code]; [exact IH|discriminate].
+  - apply apply_sched_no_panic.
   - cbn. split; discriminate.
-  - exfalso. rewrite scan_run_evs in Es. eapply run_evs_no_panic; [exact Hf|exact Es].
+  - exfalso. rewrite scan_run_evs in Es. eapply run_evs_no_panic; [apply events_no_panic|exact Es].
   - exfalso. eapply scan_fuel_enough; [|exact Es]. lia.
 Qed.
 
 (** the unguarded half of (i): whatever the bytes, the model never runs out of fuel (no hang) *)
 Theorem replay_terminates : forall bs, r_code (replay_bytes bs) <> 4%nat.
-Proof.
-  intros bs. unfold WalScan.replay_bytes.
-  destruct (scan (S (length bs)) bs 0 [] []) as [m| |c|] eqn:Es; try (cbn; discriminate).
-  - generalize (schedule m). induction l as [|[k body] r IH]; cbn [WalScan.apply_sched]; [cbn; discriminate|].
-    destruct (ParseTGData body root) as [[id wts]| |]; cbn [r_code]; try discriminate.
-    destruct (_ || _); cbn [r_code]; [exact IH|discriminate].
-  - exfalso. eapply scan_fuel_enough; [|exact Es]. lia.
-Qed.
+Proof. intros bs. apply replay_no_panic. Qed.
 
 (* ------------------------------------------------------------------ (iii): an intact framed transaction is applied *)
 
@@ -469,7 +490,7 @@ Proof.
 Qed.
 
 Lemma apply_sched_all : forall s,
-  (forall k b, In (k, b) s -> exists wts, ParseTGData b root = Ok (k, wts) /\ (wts = [] \/ apply_ok k wts = true)) ->
+  (forall k b, In (k, b) s -> exists wts, parseTGData b root = Ok (k, wts) /\ (wts = [] \/ apply_ok k wts = true)) ->
   forall k b, In (k, b) s -> exists n, In (k, n) (r_applied (apply_sched s)).
 Proof.
   induction s as [|[k0 b0] r IH]; intros Hall k b Hin; [contradiction|].
@@ -484,20 +505,19 @@ Proof.
 Qed.
 
 (** C06 (iii), frame form: a transaction framed as an intact record, with a non-zero id, not followed by a
-    checkpoint-commit frame for an id >= it, is applied — provided the file has no panic frame, no TGDATA
+    checkpoint-commit frame for an id >= it, is applied — provided no TGDATA
     key occurs twice (a failed TGDATA read counts as key 0), and every intact record of the file parses
     and replays without error *)
 Theorem intact_framed_applied : forall bs pre p t body post,
   frames bs = pre ++ EvTG p t body :: post ->
   t <> 0 ->
-  no_panic_frames bs = true ->
   NoDup (keys (frames bs)) ->
   forallb (harmless t) post = true ->
   (forall q id b, intact_at bs q id b ->
-     exists wts, ParseTGData b root = Ok (id, wts) /\ (wts = [] \/ apply_ok id wts = true)) ->
+     exists wts, parseTGData b root = Ok (id, wts) /\ (wts = [] \/ apply_ok id wts = true)) ->
   exists n, In (t, n) (r_applied (replay_bytes bs)).
 Proof.
-  intros bs pre p t body post Hfr Ht Hnp Hnd Hh Hall.
+  intros bs pre p t body post Hfr Ht Hnd Hh Hall.
   unfold WalScan.replay_bytes.
   destruct (scan (S (length bs)) bs 0 [] []) as [m'| |c|] eqn:Es.
   - rewrite scan_run_evs in Es. fold (frames bs) in Es.
@@ -515,7 +535,7 @@ Proof.
       apply Hmf in Hkb as (p' & Hev). apply events_intact in Hev as (q & Hi). eapply Hall. exact Hi.
     + apply (proj2 (schedule_In _ _ _)). exact Hin.
   - exfalso. rewrite scan_run_evs in Es. apply (run_evs_no_abort (frames bs) [] []); [exact Hnd | intros k _ [] | exact Es].
-  - exfalso. rewrite scan_run_evs in Es. eapply run_evs_no_panic; [exact Hnp|exact Es].
+  - exfalso. rewrite scan_run_evs in Es. eapply run_evs_no_panic; [apply events_no_panic|exact Es].
   - exfalso. eapply scan_fuel_enough; [|exact Es]. lia.
 Qed.
 
@@ -523,15 +543,19 @@ Qed.
     scheduled transaction was applied *)
 Lemma apply_sched_code0 : forall s,
   r_code (apply_sched s) = 0%nat ->
-  forall k b, In (k, b) s -> exists n, In (tg_id_of b, n) (r_applied (apply_sched s)).
+  forall k b, In (k, b) s -> parseTGData b root <> Rejected ->
+  exists n, In (tg_id_of b, n) (r_applied (apply_sched s)).
 Proof.
-  induction s as [|[k0 b0] r IH]; intros Hc k b Hin; [contradiction|].
+  induction s as [|[k0 b0] r IH]; intros Hc k b Hin Hnr; [contradiction|].
   cbn [WalScan.apply_sched] in *.
-  destruct (ParseTGData b0 root) as [[id wts]| |] eqn:Ep; cbn [r_code] in Hc; try discriminate.
-  destruct (_ || _); cbn [r_code r_applied] in *; [|discriminate].
-  destruct Hin as [Hin|Hin].
-  - inversion Hin; subst. exists (length wts). left. apply parse_id_is_key in Ep. rewrite Ep. reflexivity.
-  - destruct (IH Hc k b Hin) as (n & Hn). exists n. right. exact Hn.
+  destruct (parseTGData b0 root) as [[id wts]| |] eqn:Ep; cbn [r_code] in Hc; try discriminate.
+  - destruct (_ || _); cbn [r_code r_applied] in *; [|discriminate].
+    destruct Hin as [Hin|Hin].
+    + inversion Hin; subst. exists (length wts). left. apply parse_id_is_key in Ep. rewrite Ep. reflexivity.
+    + destruct (IH Hc k b Hin Hnr) as (n & Hn). exists n. right. exact Hn.
+  - destruct Hin as [Hin|Hin].
+    + inversion Hin; subst. contradiction.
+    + exact (IH Hc k b Hin Hnr).
 Qed.
 
 Theorem intact_framed_applied_code0 : forall bs pre p t body post,
@@ -539,10 +563,11 @@ Theorem intact_framed_applied_code0 : forall bs pre p t body post,
   t <> 0 ->
   NoDup (keys (frames bs)) ->
   forallb (harmless t) post = true ->
+  parseTGData body root <> Rejected ->
   r_code (replay_bytes bs) = 0%nat ->
   exists n, In (t, n) (r_applied (replay_bytes bs)).
 Proof.
-  intros bs pre p t body post Hfr Ht Hnd Hh Hc0.
+  intros bs pre p t body post Hfr Ht Hnd Hh Hdec Hc0.
   unfold WalScan.replay_bytes in *.
   destruct (scan (S (length bs)) bs 0 [] []) as [m'| |c|] eqn:Es; cbn [r_code] in Hc0; try discriminate.
   rewrite scan_run_evs in Es. fold (frames bs) in Es.
@@ -556,7 +581,7 @@ Proof.
     apply (run_evs_keeps post t body (mset t (Some body) m1) (t :: seen1) m'); [left; reflexivity | exact Ht | exact Hh | | exact Es].
     rewrite Hfr in Hnd. unfold keys in Hnd. rewrite flat_map_app in Hnd. cbn [flat_map ev_key app] in Hnd.
     apply NoDup_remove_2 in Hnd. intros X. apply Hnd. apply in_or_app. right. exact X. }
-  rewrite Hid. apply (apply_sched_code0 (schedule m') Hc0 t body).
+  rewrite Hid. apply (apply_sched_code0 (schedule m') Hc0 t body); [|exact Hdec].
   apply (proj2 (schedule_In _ _ _)). exact Hin.
 Qed.
 
